@@ -180,7 +180,7 @@ class InProgram(Facet):
     reps = ("tree", "ge", "sge", "dsge")
 
     def budget(self, tier):
-        return (100, 8) if tier == "quick" else (500, 16)
+        return (250, 8) if tier == "quick" else (700, 16)
 
     def strategy(self, tier):
         return world_cases(self.flags, reps=self.reps, max_ops=10, with_search=True, deciders=("maxdepth", "full", "pigrow"))
